@@ -10,31 +10,47 @@
 (***************************************************************************)
 EXTENDS Integers, Sequences, FiniteSets, TLC, Json
 
-CONSTANTS N,      \* number of instances
-          K       \* I/O steps per instance
+CONSTANTS N,             \* number of instances
+          K,             \* I/O steps per instance
+          DevSharedPool  \* deviation: working state (an inflater, a buffer) is recycled through a
+                         \* package-level pool by an instance that goes on using it
 
 VARIABLES pc,       \* pc[i]: I/O steps instance i has completed
-          local,    \* local[i]: abstract private state of instance i (a function of its own steps only)
+          local,    \* local[p]: the mutable working state with identity p (instance i works on part[i])
+          part,     \* part[i]: which working state instance i uses; its own unless it took one from the pool
+          pool,     \* working states handed back for reuse
           tables,   \* shared read-only tables: [written |-> BOOLEAN]
           hist      \* the interleaving so far
-vars == <<pc, local, tables, hist>>
+vars == <<pc, local, part, pool, tables, hist>>
 
 Inst == 1..N
-Init == pc = [i \in Inst |-> 0] /\ local = [i \in Inst |-> 0] /\ tables = [written |-> FALSE] /\ hist = <<>>
+Init == /\ pc = [i \in Inst |-> 0] /\ local = [i \in Inst |-> 0] /\ part = [i \in Inst |-> i] /\ pool = {}
+        /\ tables = [written |-> FALSE] /\ hist = <<>>
 
-\* one I/O step of instance i: reads the shared tables, updates only its own state
+\* one I/O step of instance i: reads the shared tables, updates only the state it works on
 Step(i) ==
   /\ pc[i] < K
   /\ pc' = [pc EXCEPT ![i] = @ + 1]
-  /\ local' = [local EXCEPT ![i] = @ * 31 + pc[i] + 1]     \* depends on i's own history only
-  /\ UNCHANGED tables
+  /\ local' = [local EXCEPT ![part[i]] = @ * 31 + pc[i] + 1]     \* depends on the history of whoever works on it
+  /\ UNCHANGED <<tables, part, pool>>
   /\ hist' = Append(hist, i)
-Next == \E i \in Inst : Step(i)
+
+\* The library has no such pool.  With the deviation, an instance hands its working state to a
+\* pool between two streams (Close) and keeps using it (Reset, Read), and an instance that has
+\* not started yet takes its working state from the pool instead of allocating one.
+Recycle(i) == /\ DevSharedPool /\ pc[i] > 0 /\ pc[i] < K /\ part[i] \notin pool
+              /\ pool' = pool \cup {part[i]} /\ UNCHANGED <<pc, local, part, tables, hist>>
+Acquire(j) == /\ DevSharedPool /\ pc[j] = 0 /\ part[j] = j
+              /\ \E p \in pool : /\ part' = [part EXCEPT ![j] = p] /\ pool' = pool \ {p}
+                                  /\ local' = [local EXCEPT ![p] = 0]          \* (it is reset for its new user)
+              /\ UNCHANGED <<pc, tables, hist>>
+Next == \E i \in Inst : Step(i) \/ Recycle(i) \/ Acquire(i)
 Spec == Init /\ [][Next]_vars
 
 Solo(k) == LET RECURSIVE F(_) F(j) == IF j = 0 THEN 0 ELSE F(j - 1) * 31 + j IN F(k)
 C17_NoSharedWrite == ~tables.written
-C17_SameAsSolo    == \A i \in Inst : local[i] = Solo(pc[i])
+C17_SameAsSolo    == \A i \in Inst : local[part[i]] = Solo(pc[i])
+C17_NothingShared == \A i, j \in Inst : i # j => part[i] # part[j]
 Done == \A i \in Inst : pc[i] = K
 PrintSchedule == Done => PrintT("BEH " \o ToJson(hist))
 =============================================================================
